@@ -67,8 +67,8 @@ PROPS["C01"] = dict(jobs=lambda j: j.startswith("effects:") or j.startswith("cha
 PROPS["C16"] = dict(jobs=None, obl=None, bounded="c16", level="other", design="4 C16",
                     technique="bounded stand-in: histories of 1-3 link/list operations (full alphabet, present/absent/duplicate/no-op arguments) on 4 topologies; after every operation forward links vs every reverse look-up, list content vs python mirror, deletion guard, system exclusivity")
 
-PROPS["C14"] = dict(jobs=lambda j: j.startswith("effects:"), obl=lambda o: "C14" in o["name"] or "effect profile" in o["name"], bounded="c14", level="other", design="4 C14",
-                    technique="bounded stand-in, exhaustive over its finite domain: every parameter of every public class x every applicable kind of invalid value x {construction, assignment in a live system}; exception required and whole-model snapshot (values, identities, links) unchanged after a refused assignment")
+PROPS["C14"] = dict(jobs=lambda j: j.startswith("effects:") or j.startswith("validator:"), obl=lambda o: "C14" in o["name"] or "effect profile" in o["name"], bounded="c14", level="other", design="4 C14",
+                    technique="P: the validator check_input_value_type_positivity_and_unit executed from its real source for every (class, constructor parameter) read from the real signatures x every kind of value with a symbolic magnitude: refused exactly when invalid (type, dimension against the real default, sign against the real list of parameters that may be negative, class of list elements); effect order of ModelingUpdate.__init__ (validation before any write); bounded stand-in, exhaustive over its finite domain: every parameter of every public class x every applicable kind of invalid value x {construction, assignment in a live system}; exception required and whole-model snapshot (values, identities, links) unchanged after a refused assignment")
 
 PROPS["C15"] = dict(jobs=None, obl=None, bounded="c15", level="other", design="4 C01/C15",
                     technique="bounded stand-in: 7 failure points x re-assignment style x one/two failures x follow-up edits; model after recovery vs before the failure (values, inputs, graph links) and vs a fresh build after a further edit")
